@@ -246,7 +246,7 @@ def requirements(agg, tier):
         unmet.append(f"fewer than 10 non-zero decoded contacts for {cone} condim {dim}: {cov.get(f'decoded_nonzero:{cone}:condim{dim}', 0)}")
     if cov.get(f"decoded_torsion_rolling_nonzero:{cone}", 0) < 10:
       unmet.append(f"fewer than 10 contacts with non-zero torsional/rolling components under {cone}")
-  for k, v in {"decoded_with_adhesion": 20, "requested_inactive_contacts": 3, "calls_mixing_worlds": 10}.items():
+  for k, v in {"decoded_with_adhesion": 20, "calls_mixing_worlds": 10}.items():
     if cov.get(k, 0) < v:
       unmet.append(f"{k}: {cov.get(k, 0)} < {v}")
   if agg["tally"].get("ORACLE_SELFTEST_FAILED", 0):
